@@ -421,3 +421,17 @@ func ForEachSchema(f func(sc.Case)) {
 		}
 	}
 }
+
+// ForEachSchemaWithCorruptions also yields the corrupted (rejected) variants.
+func ForEachSchemaWithCorruptions(f func(sc.Case)) {
+	for _, s := range slots() {
+		for _, cx := range contexts() {
+			for k := -1; k < len(s.Corrupt); k++ {
+				c, _, _, ok := build(caseT{s.Name, cx.Name, k})
+				if ok {
+					f(c)
+				}
+			}
+		}
+	}
+}
